@@ -51,12 +51,11 @@ def func_table(src):
 
 def check_returns(m, recmap, ftab, pushpop):
     """-> (signature, detail) or None"""
+    br = diag.bad_returns(m, recmap)
+    if br:
+        return br[0][0], {"event": list(br[0][1])}
     for ev in m.ret_events:
-        pc, tgt, exp, sp, sp0, cpc, depth, ctgt = ev
-        if exp is None:
-            return "C06:return-without-call", {"event": list(ev)}
-        if tgt != exp:
-            return "C06:return-to-wrong-site", {"event": list(ev)}
+        pc, tgt, exp, sp, sp0, cpc, depth, ctgt, skipped = ev
         # callee: region of the call target (internal subroutines such as list-loop bodies stay in the
         # caller's region and take no arguments)
         creg = (recmap.get(ctgt) or {}).get("region")
